@@ -22,8 +22,6 @@ NOT_APPLICABLE = {
            'reasons about str bytes or parser tables.',
     'C18': 'a String-building pretty printer over the pest AST; the property compares two parses; no contract '
            'within reach.',
-    'C19': 'Stream implementations polled under arbitrary schedules against a live broker; convergence is a '
-           'liveness statement over the stream.',
     'C20': 'type ids are UUIDv5 (SHA-1) of a canonical serialization: "any change changes the id" is collision '
            'resistance, "order does not matter" is BTreeMap iteration order in std; neither is a contract on '
            'aldrin code that a verifier here can discharge.',
